@@ -148,6 +148,14 @@ def main(tier):
     if quick:
         idx = rng.choice(len(scens), 900, replace=False)
         pick = [scens[i] for i in idx]
+    else:
+        # every class below 10 000 grains; of the larger sizes (0.1 - 1 s per call) a seeded sample of 150 per size
+        small = [s for s in scens if s["n"] < 10000]
+        large = {}
+        for s in scens:
+            if s["n"] >= 10000:
+                large.setdefault(s["n"], []).append(s)
+        pick = small + [grp[i] for grp in large.values() for i in rng.choice(len(grp), min(150, len(grp)), replace=False)]
     for sc in pick:
         if sc["n"] >= 10000 and sc["ori"] not in ("generic", "mixed", "near1e-12"):
             continue
